@@ -112,6 +112,89 @@ def rewrites_of(text, site):
             yield f"reassoc-alt@{k}", text[:s] + ("(" + lt + ")" if len(left) > 1 else lt) + " | " + ("(" + rt + ")" if len(right) > 1 else rt) + text[e:]
 
 
+BASIC = ("parens", "dup-choice", "never-seq", "never-not", "extract")
+# combinations: grammar files small enough to afford them, per tier
+COMBO_FILES = {
+    "quick": ("examples/csv/csv.pest", "examples/ini/ini.pest", "tests/grammars/lists.pest"),
+    "thorough": ("examples/csv/csv.pest", "examples/ini/ini.pest", "tests/grammars/lists.pest", "tests/grammars/http.pest", "examples/calculator/calculator.pest",
+                 "examples/calculator/grammar_encoded_prec.pest", "examples/json/json.pest", "tests/grammars/json.pest"),
+}
+COMBO_KINDS = {"quick": ("dup-choice", "never-seq", "never-not", "extract"), "thorough": BASIC}
+
+
+def wrap(kind, src, fresh):
+    """(replacement text, rules to append) for one basic rewrite of the expression text src."""
+    if kind == "parens":
+        return "(" + src + ")", ""
+    if kind == "dup-choice":
+        return "((" + src + ") | (" + src + "))", ""
+    if kind == "never-seq":
+        return "(((" + src + ") ~ " + NEVER + ") | (" + src + "))", ""
+    if kind == "never-not":
+        return "((!(" + src + ") ~ " + NEVER + ") | (" + src + "))", ""
+    if kind == "extract":
+        return fresh, "\n" + fresh + " = _{ " + src + " }\n"
+    raise ValueError(kind)
+
+
+def combos_of(text, sites, gpath, tier):
+    """Combinations of rewrites: (a) nested - a second rewrite applied to the result of the first, at every site;
+    (b) at once - one kind applied to every literal site of the file simultaneously (all files);
+    (c) pairs - every two sites of one rule body that do not overlap, both rewritten (thorough, same kind on both and never-seq + never-not)."""
+    plain = [(i, st) for i, st in enumerate(sites) if st[0] in ("term", "expr")]
+    if gpath in COMBO_FILES[tier]:
+        ks = COMBO_KINDS[tier]
+        for si, (kind, s, e, _) in plain:
+            src = text[s:e]
+            for k1 in ks:
+                r1, x1 = wrap(k1, src, FRESH + "_1")
+                for k2 in ks:
+                    r2, x2 = wrap(k2, r1, FRESH + "_2")
+                    yield si, f"nested:{k1}+{k2}", text[:s] + r2 + text[e:] + x1 + x2
+    # leaves: sites that contain no other site
+    leaves = [(si, st) for si, st in plain if not any(o is not st and st[1] <= o[1] and o[2] <= st[2] and (o[1], o[2]) != (st[1], st[2]) for _, o in plain)]
+    uniq: dict = {}
+    for si, st in leaves:
+        uniq.setdefault((st[1], st[2]), (si, st))
+    # terminals only: doubling every rule REFERENCE of a recursive grammar at once makes parsing exponential in the nesting depth
+    leaves = [x for x in uniq.values() if text[x[1][1]] in "\"'^"]
+    leaves = sorted(leaves, key=lambda x: x[1][1], reverse=True)
+    if leaves:
+        for k in BASIC:
+            new, extra = text, ""
+            for n, (si, (kind, s, e, _)) in enumerate(leaves):
+                r, x = wrap(k, text[s:e], f"{FRESH}_{n}")
+                new = new[:s] + r + new[e:]
+                extra += x
+            yield leaves[-1][0], f"at-once:{k}x{len(leaves)}", new + extra
+    if tier == "thorough" and gpath in COMBO_FILES[tier]:
+        for ai in range(len(plain)):
+            for bi in range(ai + 1, len(plain)):
+                (sa, a), (sb, b) = plain[ai], plain[bi]
+                if not (a[2] <= b[1] or b[2] <= a[1]):
+                    continue
+                first, second = (a, b) if a[1] < b[1] else (b, a)
+                if second[1] - first[2] > 60:
+                    continue  # nearby sites only (same rule body, by and large)
+                for k1, k2 in (("never-seq", "never-seq"), ("never-not", "never-not"), ("dup-choice", "dup-choice"), ("extract", "extract"), ("never-seq", "never-not"), ("never-not", "never-seq")):
+                    r2, x2 = wrap(k2, text[second[1]:second[2]], FRESH + "_2")
+                    r1, x1 = wrap(k1, text[first[1]:first[2]], FRESH + "_1")
+                    new = text[:second[1]] + r2 + text[second[2]:]
+                    new = new[:first[1]] + r1 + new[first[2]:]
+                    yield sa, f"pair:{k1}+{k2}@{first[1]},{second[1]}", new + x1 + x2
+
+
+def all_jobs(text, gpath, tier):
+    sites = sites_of(text)
+    jobs = []
+    for si, site in enumerate(sites):
+        for kind, new in rewrites_of(text, site):
+            jobs.append((si, site, kind, new))
+    for si, kind, new in combos_of(text, sites, gpath, tier):
+        jobs.append((si, sites[si], kind, new))
+    return sites, jobs
+
+
 def corpus(gpath, tier):
     starts, shorts = GRAMMARS[gpath]
     ins = list(shorts)
@@ -143,11 +226,7 @@ def _worker(payload):
     gpath, lo, hi, mode_list, tier = payload
     text = open(os.path.join(common.REPO, gpath), encoding="utf-8").read()
     starts, ins = corpus(gpath, tier)
-    sites = sites_of(text)
-    jobs = []
-    for si, site in enumerate(sites):
-        for kind, new in rewrites_of(text, site):
-            jobs.append((si, site, kind, new))
+    sites, jobs = all_jobs(text, gpath, tier)
     jobs = jobs[lo:hi]
     stats = {"evaluations": 0, "rewrites": 0, "nontrivial": 0}
     fails = []
@@ -182,9 +261,10 @@ def _worker(payload):
     return stats, fails[:100], len(fails)
 
 
-def n_jobs(gpath):
+def n_jobs(gpath, tier):
     text = open(os.path.join(common.REPO, gpath), encoding="utf-8").read()
-    return sum(1 for site in sites_of(text) for _ in rewrites_of(text, site)), len(sites_of(text))
+    sites, jobs = all_jobs(text, gpath, tier)
+    return len(jobs), len(sites), sum(1 for j in jobs if j[2].split(":")[0] in ("nested", "at-once", "pair"))
 
 
 def run(tier: str) -> int:
@@ -195,12 +275,14 @@ def run(tier: str) -> int:
     payloads = []
     nsites = 0
     njobs = 0
+    ncombo = 0
     for gpath in GRAMMARS:
         if not os.path.exists(os.path.join(common.REPO, gpath)):
             continue
-        nj, ns = n_jobs(gpath)
+        nj, ns, nc = n_jobs(gpath, tier)
         nsites += ns
         njobs += nj
+        ncombo += nc
         mode_list = ("IU", "IO") if (tier == "quick" and gpath in QUICK_INTERP_ONLY) else modes.MODES
         step = 25 if gpath in BIG else 40
         for lo in range(0, nj, step):
@@ -224,7 +306,7 @@ def run(tier: str) -> int:
         if fd is not None:
             rep.known(fd)
             continue
-        sym = (c["kind"], c["mode"], c["rewrite"].split("@")[0], c["grammar_file"])
+        sym = (c["kind"], c["mode"], c["rewrite"].split("@")[0].split("x")[0], c["grammar_file"])
         if sym in seen and len(rep.violations) >= 15:
             rep.violations.append(c)
         else:
@@ -247,6 +329,8 @@ def run(tier: str) -> int:
         "distinct_nontrivial": agg["nontrivial"],
         "rule": "for each bundled grammar (tests: json, toml, sql, http, lists; examples: json, calculator x2, jsonpath, ini, csv) every site of the meta-grammar's parse tree of the file - every untagged term, every rule-body / parenthesised / PUSH expression, "
                 "every run of >= 3 sequence terms or alternatives - x the rewrite kinds: (e); (e) | (e); ((e) ~ NEVER) | (e); (!(e) ~ NEVER) | (e); extraction into a fresh silent rule; every re-association split of ~ and | runs. "
+                "Combinations: (a) nested - a second rewrite applied to the result of a first one at the same site, every ordered pair of kinds, on the smaller grammars (quick: csv, ini, lists with four kinds; thorough: also http, both calculators, both json with five kinds); "
+                "(b) at once - one kind applied simultaneously to every literal (string, insensitive string, character range) of the file, all files; (c) thorough: every two nearby non-overlapping sites both rewritten (six kind pairs). "
                 "Inputs: the repository's example files (thorough), the inputs of the pest-derived tests, short hand-written valid and invalid inputs per start rule, and every proper prefix of each short input (thorough: also every single-character deletion). "
                 "Oracle: same outcome and same tree as the unrewritten grammar in the same mode (failure positions are not compared: a NEVER literal legitimately moves them). "
                 "quick: four modes for http, lists, ini, csv and the calculators, both interpreters for json, toml, sql, jsonpath, and without the large example files; thorough: four modes and all inputs everywhere. Non-trivial: the unrewritten grammar accepts the input",
@@ -254,11 +338,12 @@ def run(tier: str) -> int:
         "exhaustive": True,
         "sites": nsites,
         "rewritten_grammars": njobs,
+        "of_which_combinations": ncombo,
         "children": len(payloads),
         "failing_cases": total,
         "fixed_witnesses_replayed": regress,
     }
-    rep.assumptions = ["combinations of two rewrites are not enumerated (single rewrites at every site only)", "the NEVER literal is verified to occur in no corpus input"]
+    rep.assumptions = ["combinations are enumerated up to two rewrites (nested at one site, or at two nearby sites) plus one all-leaves-at-once grammar per kind; larger combinations are not", "the NEVER literal is verified to occur in no corpus input"]
     return rep.finish()
 
 
